@@ -5,6 +5,7 @@ VARIABLE c
 Init == c = 0
 Next == /\ c < Len(HTab) /\ c' = c + 1
         /\ PrintT(<<"CASE", ToJson([kernel |-> "h2pe", id |-> HTab[c'].id, N |-> HTab[c'].N, K |-> HTab[c'].K, n |-> HTab[c'].n,
-                                     r1 |-> [k \in 1..Len(HTab[c'].r1) |-> HTab[c'].r1[k].w1]])>>)
+                                     r1 |-> [k \in 1..Len(HTab[c'].r1) |-> HTab[c'].r1[k].w1],
+                                     rt |-> [k \in 1..Len(HTab[c'].rt) |-> [w1 |-> HTab[c'].rt[k].w1, probe |-> HTab[c'].rt[k].probe, out |-> HTab[c'].rt[k].out]]])>>)
 Spec == Init /\ [][Next]_c
 =============================================================================
